@@ -4,7 +4,7 @@
 //!   HeapSys  - intrusive pairing heap against a multiset (C20)
 
 use crate::core::{Cfg, StepOut, System};
-use crate::harness::{drops, lib, Tag};
+use crate::harness::{self, drops, lib, Tag};
 use futures_intrusive::buffer::{ArrayBuf, FixedHeapBuf, GrowingHeapBuf, RingBuf};
 use futures_intrusive::verif::{HeapNode, LinkedList, ListNode, PairingHeap};
 use std::collections::VecDeque;
@@ -396,7 +396,16 @@ impl System for ListSys {
         self.validate(out);
     }
     fn fingerprint(&self) -> Vec<u8> {
-        self.reference.iter().copied().collect()
+        let mut v: Vec<u8> = self.reference.iter().copied().collect();
+        // complete rendering of the list and of every node (fields this harness does not know
+        // about included), addresses replaced by node indices
+        v.push(255);
+        let mut name = |a: usize| self.idx(a).map_or(250, |i| i as u8);
+        v.extend(harness::norm_with(&format!("{:?}", self.list), &mut name));
+        for n in &self.nodes {
+            v.extend(harness::norm_with(&format!("{:?}", n), &mut name));
+        }
+        v
     }
     fn finish(self, _out: &mut StepOut) {}
 }
@@ -556,6 +565,12 @@ impl System for HeapSys {
         v.push((k >> 8) as u8);
         v.push(k as u8);
         v.extend(self.shape(&mut o));
+        v.push(255);
+        let mut name = |a: usize| self.idx(a).map_or(250, |i| i as u8);
+        v.extend(harness::norm_with(&format!("{:?}", self.heap), &mut name));
+        for n in &self.nodes {
+            v.extend(harness::norm_with(&format!("{:?}", n), &mut name));
+        }
         v
     }
     fn finish(self, _out: &mut StepOut) {}
